@@ -61,11 +61,8 @@ package openapi3filter
 // ---- request/response validation as seen by the middleware: the verdict is recorded, nothing
 // is assumed about it. That they leave the validator and the wrappers alone and never run the
 // handler or the error callback is proved by the call-graph scan (preserves).
-//@ func ValidateRequest
-//@   modifies *
-//@   preserves @C14 Validator.strict, Validator.errFunc, Validator.logFunc, Validator.router, strictResponseWrapper.*, warnResponseWrapper.*
-//@   preserves @C14 handlerCalls, errCalls, cliHdr, cliCode, cliBody
-//@   records reqOK := (result == nil)
+// (the contract of ValidateRequest is in verif_contracts_request.go; the middleware uses its
+// preserves/records clauses)
 //@ func ValidateResponse
 //@   modifies *
 //@   preserves @C14 Validator.strict, Validator.errFunc, Validator.logFunc, Validator.router, strictResponseWrapper.*, warnResponseWrapper.*, bytes.Buffer.*, []byte
